@@ -484,6 +484,81 @@
         assert!(failures.is_empty());
     }
 
+    /// C13 end to end with the MeCab-style provider configured (class definitions and unknown-word definitions written for this test, the
+    /// fallback provider behind it, path rewriting off): texts over letters, digits, kana, kanji, symbols, combining marks, variation
+    /// selectors and joiners.  Every analysis succeeds and partitions the text; every out-of-vocabulary morpheme reports is_oov,
+    /// dictionary -1, a part of speech of an unknown-word definition of one of the classes of its first character (or the fallback's),
+    /// and the same text as normalised and dictionary form; and whether a base character is separated from the combining mark that
+    /// follows it does not depend on what follows the mark.
+    #[test]
+    fn verif_oracle_oov_end_to_end() {
+        if !want("C13") { return; }
+        let mut cfgb = ConfigTestSupport::new();
+        let mut dic = DictBuilder::new_system();
+        dic.read_conn(super::super::MATRIX_10_10).unwrap();
+        dic.read_lexicon(SYSTEM_LEX).unwrap();
+        dic.resolve().unwrap();
+        dic.compile(&mut cfgb.make_system()).unwrap();
+        let mut chardef = tempfile::Builder::new().prefix("verif_char").suffix(".def").tempfile().unwrap();
+        chardef.write_all("DEFAULT 0 1 0\nALPHA 1 1 0\nNUMERIC 1 1 0\nKANJI 0 0 2\nKATAKANA 1 1 2\nHIRAGANA 0 1 2\n".as_bytes()).unwrap();
+        let defs = [("DEFAULT", "補助記号,一般,*,*,*,*"), ("ALPHA", "名詞,普通名詞,一般,*,*,*"), ("NUMERIC", "名詞,数詞,*,*,*,*"), ("KANJI", "名詞,固有名詞,一般,*,*,*"), ("KATAKANA", "名詞,普通名詞,サ変可能,*,*,*"), ("HIRAGANA", "感動詞,一般,*,*,*,*")];
+        let mut unkdef = tempfile::Builder::new().prefix("verif_unk").suffix(".def").tempfile().unwrap();
+        for (k, (c, p)) in defs.iter().enumerate() { unkdef.write_all(format!("{},7,7,{},{}\n", c, 9000 + 500 * k, p).as_bytes()).unwrap(); }
+        let mut cfg = cfgb.config();
+        cfg.path_rewrite_plugins.clear();
+        let fallback_pos = "名詞,普通名詞,一般,*,*,*";
+        cfg.oov_provider_plugins = vec![
+            serde_json::json!({"class": "com.worksap.nlp.sudachi.MeCabOovPlugin", "charDef": chardef.path(), "unkDef": unkdef.path(), "userPOS": "allow"}),
+            serde_json::json!({"class": "com.worksap.nlp.sudachi.SimpleOovPlugin", "oovPOS": fallback_pos.split(',').collect::<Vec<_>>(), "leftId": 8, "rightId": 8, "cost": 30000}),
+        ];
+        let jd = match JapaneseDictionary::from_cfg(&cfg) { Ok(d) => d, Err(e) => panic!("the MeCab provider configuration does not load: {:?}", e) };
+        let allowed: Vec<String> = defs.iter().map(|d| d.1.to_string()).chain(std::iter::once(fallback_pos.to_string())).collect();
+        let pieces = ["a", "B", "1", "ア", "ァ", "あ", "漢", "京都", "!", " ", "\u{301}", "\u{3099}", "\u{fe0f}", "\u{200d}", "😀", "\u{1F3FB}"];
+        let mut texts: Vec<String> = Vec::new();
+        let mut frontier = vec![String::new()];
+        for _ in 0..3 {
+            let mut nf = Vec::new();
+            for t in &frontier { for c in pieces.iter() { let mut s = t.clone(); s.push_str(c); nf.push(s); } }
+            texts.extend(nf.iter().cloned());
+            frontier = nf;
+        }
+        let run = |t: &str| -> Result<Vec<(usize, usize, bool, i32, String, String, String)>, String> {
+            std::panic::catch_unwind(std::panic::AssertUnwindSafe(|| {
+                let mut tok = StatefulTokenizer::new(&jd, Mode::C);
+                tok.reset().push_str(t);
+                tok.do_tokenize().map(|_| { let mut ms = MorphemeList::empty(&jd); ms.collect_results(&mut tok).unwrap();
+                    ms.iter().map(|m| (m.begin(), m.end(), m.is_oov(), m.dictionary_id(), m.part_of_speech().join(","), m.normalized_form().to_string(), m.dictionary_form().to_string())).collect::<Vec<_>>() }).map_err(|e| format!("{:?}", e))
+            })).unwrap_or_else(|_| Err("panic".to_string()))
+        };
+        let mut failures: Vec<String> = Vec::new();
+        for t in texts.iter() {
+            let toks = match run(t) { Ok(x) => x, Err(e) => { if failures.len() < 20 { failures.push(format!("C13: analysis of {:?} fails: {}", t, e)); } continue; } };
+            let mut pos = 0;
+            for k in toks.iter() {
+                if k.0 != pos && failures.len() < 20 { failures.push(format!("C13: morphemes of {:?} do not partition the text: {:?}", t, toks.iter().map(|k| (k.0, k.1)).collect::<Vec<_>>())); break; }
+                pos = k.1;
+                if k.2 {
+                    if (k.3 != -1 || !allowed.contains(&k.4) || k.5 != k.6) && failures.len() < 20 { failures.push(format!("C13: {:?}: the out-of-vocabulary morpheme {}..{} reports dictionary {}, part of speech {:?}, normalised form {:?}, dictionary form {:?}", t, k.0, k.1, k.3, k.4, k.5, k.6)); }
+                } else if k.3 < 0 && failures.len() < 20 { failures.push(format!("C13: {:?}: the morpheme {}..{} has no dictionary but is not reported as out of vocabulary", t, k.0, k.1)); }
+            }
+            if pos != t.len() && !toks.is_empty() && failures.len() < 20 { failures.push(format!("C13: morphemes of {:?} end at {} of {}", t, pos, t.len())); }
+        }
+        // a base character and the mark behind it: separated or not, whatever follows
+        for base in ["a", "1", "ア", "あ", "漢", "!", "😀"] { for mark in ["\u{301}", "\u{3099}", "\u{fe0f}", "\u{1F3FB}"] {
+            let mut verdicts: Vec<(String, bool)> = Vec::new();
+            // (followers that can begin a word: a further mark would lengthen the run beyond the 2-character limit of the ungrouped
+            // KANJI definition, and the cut the definition then prescribes is not "because of what follows")
+            for follow in ["", "a", "1", "ア", "あ", "漢", "!", " ", "京都", "😀"] {
+                let t = format!("{}{}{}", base, mark, follow);
+                if let Ok(toks) = run(&t) { verdicts.push((follow.to_string(), toks.iter().any(|k| k.1 == base.len()))); }
+            }
+            if verdicts.iter().any(|v| v.1 != verdicts[0].1) && failures.len() < 20 { failures.push(format!("C13: whether {:?} is separated from the mark {:?} behind it depends on what follows: {:?}", base, mark, verdicts)); }
+        }}
+        println!("verif_oracle_oov_end_to_end: {} texts, {} failures", texts.len(), failures.len());
+        for f in failures.iter().take(5) { println!("FAILING INPUT: {}", f); }
+        assert!(failures.is_empty());
+    }
+
     /// C14, path-rewrite plugins only merge neighbours: every text of up to 5 pieces over {アイ ウ ア に 1 万 , 京都} is analysed with the
     /// configured plugins (numeral joining, katakana-OOV joining) and with none; the boundaries with plugins are a subset of those
     /// without, a token that is not the result of a merge is reported unchanged, and a merged token swallows only katakana or
